@@ -558,7 +558,9 @@ class Polygon(Shape2D):
             (np.sum(points[:-1] * points[:-1], axis=1) / 2, [0])
         )
         x, resids, _, _ = np.linalg.lstsq(points, half_point_lengths, None)
-        if len(self.vertices) > 3 and not np.isclose(resids, 0):
+        # The residual has units of length**4: use a tolerance relative to the size.
+        atol = 1e-8 * np.max(half_point_lengths) ** 2
+        if len(self.vertices) > 3 and not np.isclose(resids, 0, atol=atol):
             raise RuntimeError("No circumcircle for this polygon.")
 
         return Circle(np.linalg.norm(x), x + self.vertices[0])
@@ -625,7 +627,9 @@ class Polygon(Shape2D):
         )
 
         x, resids, _, _ = np.linalg.lstsq(a, b, None)
-        if len(self.vertices) > 3 and not np.isclose(resids, 0):
+        # The residual has units of length**2: use a tolerance relative to the size.
+        extent = np.max(np.linalg.norm(self.vertices - self.vertices[0], axis=-1))
+        if len(self.vertices) > 3 and not np.isclose(resids, 0, atol=1e-8 * extent**2):
             raise RuntimeError("No incircle for this polygon.")
 
         return Circle(x[3], x[:3])
